@@ -36,7 +36,7 @@ def ns(l1: int, i1: int, l2: int, i2: int, nb: int, fs: int) -> bool:
         res = {}
         for on in (True, False):
             opts = pj.make_options(phys, frame_size=fs, ns=on, names=P["names"], prefixes=P["prefixes"], datatypes=P["datatypes"],
-                                   generalized=integ == "generic", rdf_star=integ == "generic")
+                                   generalized=integ == "generic", rdf_star=integ == "generic", version=P.get("explicit_version"))
             if integ == "generic":
                 data = pj.gen_serialize(items, phys, opts, entry=P["entry"], bindings=binds)
             else:
